@@ -670,7 +670,8 @@ func TestVerifC19Timeouts(t *testing.T) {
 
 func TestVerifC19EtagConfig(t *testing.T) {
 	vs.RunExhaustive(t, "C19", 10_000, func(c *vs.Case) error {
-		cfg := c.PickStr("no-etag-block", "empty-block", "enabled-true", "enabled-false", "timeouts-only", "enabled-true-with-timeouts")
+		cfg := c.PickStr("no-etag-block", "empty-block", "enabled-true", "enabled-false", "timeouts-only", "enabled-true-with-timeouts",
+			"entry-expires-before-second-call", "entry-outlives-the-cleanup-interval")
 		second := c.PickStr("304", "412", "200")
 		c.Describe(func() any { return map[string]any{"etagConfig": cfg, "secondAnswer": second} })
 		var inm []string
@@ -701,8 +702,9 @@ func TestVerifC19EtagConfig(t *testing.T) {
 		url := srv.URL + "/sync"
 		wh := &v1alpha1.Webhook{URL: &url}
 		on, off := true, false
-		ttl := int32(60)
+		ttl, one := int32(60), int32(1)
 		active := false
+		wait := time.Duration(0)
 		switch cfg {
 		case "empty-block":
 			wh.Etag = &v1alpha1.WebhookEtagConfig{}
@@ -716,6 +718,14 @@ func TestVerifC19EtagConfig(t *testing.T) {
 		case "enabled-true-with-timeouts":
 			wh.Etag = &v1alpha1.WebhookEtagConfig{Enabled: &on, CacheTimeoutSeconds: &ttl, CacheCleanupSeconds: &ttl}
 			active = true
+		case "entry-expires-before-second-call":
+			// the "expired" cache state: an entry lives for cacheTimeoutSeconds, whatever the cleanup interval is
+			wh.Etag = &v1alpha1.WebhookEtagConfig{Enabled: &on, CacheTimeoutSeconds: &one, CacheCleanupSeconds: &ttl}
+			wait = 1300 * time.Millisecond
+		case "entry-outlives-the-cleanup-interval":
+			wh.Etag = &v1alpha1.WebhookEtagConfig{Enabled: &on, CacheTimeoutSeconds: &ttl, CacheCleanupSeconds: &one}
+			wait = 1300 * time.Millisecond
+			active = true
 		}
 		ex, err := NewWebhookExecutor(wh, fmt.Sprintf("c19-etagcfg-%d-%d", os.Getpid(), c19TimeoutSeq), common.CompositeController, common.SyncHook)
 		if err != nil {
@@ -725,6 +735,7 @@ func TestVerifC19EtagConfig(t *testing.T) {
 		if err := ex.Call(c19Parent(), &r1); err != nil {
 			return vs.Violf("C19/valid-answer-rejected", "first call (200 with an ETag) failed: %v", err)
 		}
+		time.Sleep(wait)
 		err2 := ex.Call(c19Parent(), &r2)
 		mu.Lock()
 		sent := append([]string(nil), inm...)
@@ -735,6 +746,18 @@ func TestVerifC19EtagConfig(t *testing.T) {
 		}
 		if active && sent[1] != `"e1"` {
 			return vs.Violf("C19/if-none-match-not-sent", "etag.enabled is true and an entry is cached, but the second request carried If-None-Match=%q", sent[1])
+		}
+		if cfg == "entry-expires-before-second-call" {
+			if sent[1] != "" {
+				return vs.Violf("C19/expired-entry-used", "cacheTimeoutSeconds is 1 and the second call came 1.3 s after the first, yet it carried If-None-Match=%q (the expired entry is still in use)", sent[1])
+			}
+			if second == "200" && (err2 != nil || fmt.Sprint(r2.Status["v"]) != "7") {
+				return vs.Violf("C19/valid-answer-rejected", "second call answered 200 with v=7: err=%v status=%v", err2, r2.Status)
+			}
+			if second != "200" && err2 == nil {
+				return vs.Violf("C19/bad-status-accepted", "no If-None-Match was sent (entry expired) but HTTP %s was treated as an answer (status %v)", second, r2.Status)
+			}
+			return nil
 		}
 		if !active && sent[1] != "" {
 			return vs.Violf("C19/if-none-match-unexpected", "ETag support is off (%s) but the second request carried If-None-Match=%q", cfg, sent[1])
